@@ -148,6 +148,8 @@ def dispatch (op : String) (args : List Str) : String :=
   | "accept", [s] => opAccept "cur" s
   | "accept", [w, s] => opAccept (String.ofList w) s
   | "print", [s] => opPrint s
+  | "nsinfo", [s] => opNsInfo "" s
+  | "nsinfo", [q, s] => opNsInfo (String.ofList q) s
   | "attrs", [s] => opAttrs false s
   | "attrs", [w, s] => opAttrs (String.ofList w == "cur") s
   | "pipeline", [s] => opAccept "cur" s
